@@ -367,6 +367,12 @@ class Run:
     # -------------------------------------------------------------------- stepping
     def apply(self, op_):
         self.step += 1
+        if self.step % 4 == 0:
+            # garbage collection only at op boundaries (see engine._execute): deterministic, never in
+            # the middle of an HDF5 call, and it keeps the number of live dataset handles (1 MB of
+            # chunk cache each) bounded within long runs
+            import gc
+            gc.collect()
         kind = op_["op"]
         dt = op_.get("dt", 0)
         if dt:
